@@ -756,39 +756,40 @@ where
 		.iter()
 		.filter(|out| out.root_key_id == *parent_key_id);
 
-	let mut unspent_total = 0;
-	let mut immature_total = 0;
-	let mut awaiting_finalization_total = 0;
-	let mut unconfirmed_total = 0;
-	let mut locked_total = 0;
-	let mut reverted_total = 0;
+	let mut unspent_total = 0u64;
+	let mut immature_total = 0u64;
+	let mut awaiting_finalization_total = 0u64;
+	let mut unconfirmed_total = 0u64;
+	let mut locked_total = 0u64;
+	let mut reverted_total = 0u64;
 
 	for out in outputs {
 		match out.status {
 			OutputStatus::Unspent => {
 				if out.is_coinbase && out.lock_height > current_height {
-					immature_total += out.value;
+					immature_total = immature_total.saturating_add(out.value);
 				} else if out.num_confirmations(current_height) < minimum_confirmations {
 					// Treat anything less than minimum confirmations as "unconfirmed".
-					unconfirmed_total += out.value;
+					unconfirmed_total = unconfirmed_total.saturating_add(out.value);
 				} else {
-					unspent_total += out.value;
+					unspent_total = unspent_total.saturating_add(out.value);
 				}
 			}
 			OutputStatus::Unconfirmed => {
 				// We ignore unconfirmed coinbase outputs completely.
 				if !out.is_coinbase {
 					if minimum_confirmations == 0 {
-						unconfirmed_total += out.value;
+						unconfirmed_total = unconfirmed_total.saturating_add(out.value);
 					} else {
-						awaiting_finalization_total += out.value;
+						awaiting_finalization_total =
+							awaiting_finalization_total.saturating_add(out.value);
 					}
 				}
 			}
 			OutputStatus::Locked => {
-				locked_total += out.value;
+				locked_total = locked_total.saturating_add(out.value);
 			}
-			OutputStatus::Reverted => reverted_total += out.value,
+			OutputStatus::Reverted => reverted_total = reverted_total.saturating_add(out.value),
 			OutputStatus::Spent => {}
 		}
 	}
@@ -796,7 +797,9 @@ where
 	Ok(WalletInfo {
 		last_confirmed_height: current_height,
 		minimum_confirmations,
-		total: unspent_total + unconfirmed_total + immature_total,
+		total: unspent_total
+			.saturating_add(unconfirmed_total)
+			.saturating_add(immature_total),
 		amount_awaiting_finalization: awaiting_finalization_total,
 		amount_awaiting_confirmation: unconfirmed_total,
 		amount_immature: immature_total,
